@@ -3,115 +3,187 @@ package c01
 import (
 	"encoding/json"
 	"fmt"
+	"strings"
 	"time"
 
 	ssi "github.com/nuts-foundation/go-did"
 	"github.com/nuts-foundation/go-did/did"
 	"github.com/nuts-foundation/go-did/vc"
-	"github.com/nuts-foundation/nuts-node/vcr/credential"
 
+	"verif/enum"
 	"verif/ev"
 )
 
-// credFact is what the harness knows, by construction, about one credential carried in a presentation.
-type credFact struct {
-	Issuer, Subject string
-	HasProof        bool // carries a proof made by its issuer's key (by the node's own issuer)
-	Expired         bool
-	Revoked         bool
+// credKind is one kind of credential a presentation may carry. The facts are true BY CONSTRUCTION of the document as it
+// is sent (tampering / stripping happens before the wallet signs the presentation, so the presentation's own proof is
+// always genuine and covers exactly what is sent).
+type credKind struct {
+	Name     string
+	Issuer   string // DID of the claimed issuer
+	Subject  string // credentialSubject.id
+	HasProof bool   // carries a proof / is a signed JWT
+	ProofOK  bool   // ... and that proof is the issuer's genuine signature over the credential as sent
+	Expired  bool
+	Revoked  bool
+	cred     vc.VerifiableCredential
 }
 
-type vpCase struct {
-	Name   string
-	Signer string
-	Holder string // "" = no holder property
-	Creds  []credFact
-}
-
-// mayAcceptVP transcribes the statement for presentations: signed by the subject of every credential it carries, every
-// credential authentic (proof by its issuer - or, when the credential is issued by the presenter itself and the
-// presentation names that presenter as holder, covered by the presentation's own proof), current and unrevoked.
-func mayAcceptVP(c vpCase) bool {
-	if c.Holder != "" && c.Holder != c.Signer {
+// acceptableInVP transcribes the statement for ONE carried credential: authentic (signed by its issuer - or, when it is
+// issued by the presenter itself and the presentation names that presenter as holder, covered by the presentation's own
+// proof), about the presenter, current and unrevoked.
+func (k credKind) acceptableInVP(signer, holder string) bool {
+	if k.Subject != signer || k.Expired || k.Revoked {
 		return false
 	}
-	for _, f := range c.Creds {
-		if f.Subject != c.Signer || f.Expired || f.Revoked {
-			return false
-		}
-		selfAttested := f.Issuer == c.Signer && c.Holder == c.Signer
-		if !f.HasProof && !selfAttested {
+	if k.HasProof {
+		return k.ProofOK
+	}
+	return k.Issuer == signer && holder == signer // self-attested, protected by the presentation's proof
+}
+
+// mayAcceptVP: the presentation may be reported valid only if EVERY carried credential is acceptable on its own.
+func mayAcceptVP(signer, holder string, creds []credKind) bool {
+	if holder != "" && holder != signer {
+		return false
+	}
+	for _, k := range creds {
+		if !k.acceptableInVP(signer, holder) {
 			return false
 		}
 	}
 	return true
 }
 
-func vpRelations(e *env, r *ev.Run, iss, hold, other *party, replay bool, rc caseC01) {
+func reparse(e *env, raw []byte) vc.VerifiableCredential {
+	c, err := vc.ParseVerifiableCredential(string(raw))
+	if err != nil {
+		e.t.Fatalf("harness: reparse credential: %v", err)
+	}
+	return *c
+}
+
+// credentialKinds builds the alphabet of carried credentials (all about `hold` unless named otherwise).
+func credentialKinds(e *env, iss, hold, other *party) []credKind {
 	exp := tIssue.Add(20 * 365 * 24 * time.Hour)
 	org := templates()[0]
-	unsigned := func(issuer, subject *party) vc.VerifiableCredential {
-		id := ssi.MustParseURI(issuer.did.String() + "#b0c9a9c0-5b1c-4b8e-9d0a-0a9c0c0f3a11")
-		return vc.VerifiableCredential{Context: uris(org.context...), ID: &id, Type: uris("VerifiableCredential", org.typ), Issuer: issuer.did.URI(),
-			IssuanceDate: tIssue, CredentialSubject: []interface{}{org.subject(subject.did.String())}}
+	I, H, O := iss.did.String(), hold.did.String(), other.did.String()
+	var kinds []credKind
+	add := func(k credKind) { kinds = append(kinds, k) }
+
+	// --- JSON-LD
+	valid := e.issue(org, iss, H, "ldp_vc", tIssue, &exp)
+	add(credKind{Name: "valid", Issuer: I, Subject: H, HasProof: true, ProofOK: true, cred: valid})
+	vb, _ := json.Marshal(valid)
+	{ // a claim changed after the issuer signed
+		var m map[string]any
+		_ = json.Unmarshal(vb, &m)
+		m["credentialSubject"].(map[string]any)["organization"].(map[string]any)["name"] = "Big University Hospital"
+		b, _ := json.Marshal(m)
+		add(credKind{Name: "tampered", Issuer: I, Subject: H, HasProof: true, ProofOK: false, cred: reparse(e, b)})
 	}
-	fact := func(i, s *party, proof bool) credFact {
-		return credFact{Issuer: i.did.String(), Subject: s.did.String(), HasProof: proof}
+	{ // the issuer's proof removed
+		var m map[string]any
+		_ = json.Unmarshal(vb, &m)
+		delete(m, "proof")
+		b, _ := json.Marshal(m)
+		add(credKind{Name: "stripped", Issuer: I, Subject: H, cred: reparse(e, b)})
 	}
-	type built struct {
-		c      vpCase
-		signer *did.DID
-		holder *ssi.URI
-		creds  []vc.VerifiableCredential
+	add(credKind{Name: "self-with-proof", Issuer: H, Subject: H, HasProof: true, ProofOK: true, cred: e.issue(org, hold, H, "ldp_vc", tIssue, &exp)})
+	unsigned := func(issuer *party, frag string) vc.VerifiableCredential {
+		id := ssi.MustParseURI(issuer.did.String() + "#" + frag)
+		c := vc.VerifiableCredential{Context: uris(org.context...), ID: &id, Type: uris("VerifiableCredential", org.typ), Issuer: issuer.did.URI(),
+			IssuanceDate: tIssue, CredentialSubject: []interface{}{org.subject(H)}}
+		b, _ := json.Marshal(c)
+		return reparse(e, b)
 	}
-	hURI, oURI := hold.did.URI(), other.did.URI()
-	var cases []built
-	for _, f := range []string{"ldp_vc", "jwt_vc"} {
-		good := e.issue(org, iss, hold.did.String(), f, tIssue, &exp)
-		goodOther := e.issue(org, iss, other.did.String(), f, tIssue, &exp)
-		past := tIssue.Add(time.Hour)
-		expired := e.issue(org, iss, hold.did.String(), f, tIssue, &past)
-		add := func(name string, signer *party, holder *ssi.URI, facts []credFact, creds ...vc.VerifiableCredential) {
-			h := ""
-			if holder != nil {
-				h = holder.String()
+	add(credKind{Name: "self-no-proof", Issuer: H, Subject: H, cred: unsigned(hold, "b0c9a9c0-5b1c-4b8e-9d0a-0a9c0c0f3a11")})
+	add(credKind{Name: "foreign-unsigned", Issuer: O, Subject: H, cred: unsigned(other, "b0c9a9c0-5b1c-4b8e-9d0a-0a9c0c0f3a12")})
+	past := tIssue.Add(time.Hour)
+	add(credKind{Name: "expired", Issuer: I, Subject: H, HasProof: true, ProofOK: true, Expired: true, cred: e.issue(org, iss, H, "ldp_vc", tIssue, &past)})
+	rev := e.issue(org, iss, H, "ldp_vc", tIssue, &exp)
+	if err := revoke(e, rev); err != nil {
+		e.t.Fatalf("harness: revoke: %v", err)
+	}
+	add(credKind{Name: "revoked", Issuer: I, Subject: H, HasProof: true, ProofOK: true, Revoked: true, cred: rev})
+	add(credKind{Name: "valid-other-subject", Issuer: I, Subject: O, HasProof: true, ProofOK: true, cred: e.issue(org, iss, O, "ldp_vc", tIssue, &exp)})
+
+	// --- JWT
+	jv := e.issue(org, iss, H, "jwt_vc", tIssue, &exp)
+	add(credKind{Name: "jwt-valid", Issuer: I, Subject: H, HasProof: true, ProofOK: true, cred: jv})
+	{ // claims changed, signature kept
+		parts := strings.Split(jv.Raw(), ".")
+		cb, _ := jsonB64(parts[1])
+		var m map[string]any
+		_ = json.Unmarshal(cb, &m)
+		cs := m["vc"].(map[string]any)["credentialSubject"]
+		if arr, ok := cs.([]any); ok {
+			cs = arr[0]
+		}
+		cs.(map[string]any)["organization"].(map[string]any)["name"] = "Big University Hospital"
+		nb, _ := json.Marshal(m)
+		tok := parts[0] + "." + enum.B64(nb) + "." + parts[2]
+		add(credKind{Name: "jwt-tampered", Issuer: I, Subject: H, HasProof: true, ProofOK: false, cred: reparse(e, []byte(tok))})
+	}
+	add(credKind{Name: "jwt-expired", Issuer: I, Subject: H, HasProof: true, ProofOK: true, Expired: true, cred: e.issue(org, iss, H, "jwt_vc", tIssue, &past)})
+	return kinds
+}
+
+// vpRelations enumerates presentations of one, two (and in the thorough tier three) credentials over the kinds, in EVERY
+// order, for both presentation formats, with and without the holder property, signed by the holder (and, for single
+// credentials, also by another party).
+func vpRelations(e *env, r *ev.Run, iss, hold, other *party, replay bool, rc caseC01) {
+	kinds := credentialKinds(e, iss, hold, other)
+	// vacuity guards on the alphabet itself: each kind behaves on its own (direct Verify) as constructed
+	for _, k := range kinds {
+		err := e.ctx.VCR.Verifier().Verify(k.cred, false, true, nil)
+		want := k.HasProof && k.ProofOK && !k.Expired && !k.Revoked
+		if (err == nil) != want {
+			if err == nil {
+				r.Violation("C01|credential-kind|"+k.Name+"|accepted", fmt.Sprintf("credential kind %q is reported valid by Verify on its own although it is %+v", k.Name, k), caseC01{Clause: "vp-relations", Doc: "kind/" + k.Name})
+			} else {
+				e.t.Fatalf("harness: credential kind %q does not verify on its own: %v", k.Name, err)
 			}
-			cases = append(cases, built{c: vpCase{Name: name + "/" + f, Signer: signer.did.String(), Holder: h, Creds: facts}, signer: &signer.did, holder: holder, creds: creds})
-		}
-		add("honest", hold, nil, []credFact{fact(iss, hold, true)}, good)
-		add("honest-holder-set", hold, &hURI, []credFact{fact(iss, hold, true)}, good)
-		add("signer-not-subject", other, nil, []credFact{fact(iss, hold, true)}, good)
-		add("signer-not-subject-holder-is-signer", other, &oURI, []credFact{fact(iss, hold, true)}, good)
-		add("mixed-subjects", hold, nil, []credFact{fact(iss, hold, true), fact(iss, other, true)}, good, goodOther)
-		add("mixed-subjects-second-first", hold, nil, []credFact{fact(iss, other, true), fact(iss, hold, true)}, goodOther, good)
-		add("holder-not-subject", hold, &oURI, []credFact{fact(iss, hold, true)}, good)
-		ef := fact(iss, hold, true)
-		ef.Expired = true
-		add("expired-credential", hold, nil, []credFact{ef}, expired)
-		add("valid+expired-credential", hold, nil, []credFact{fact(iss, hold, true), ef}, good, expired)
-		if f == "ldp_vc" {
-			add("self-attested-unsigned-holder-set", hold, &hURI, []credFact{fact(hold, hold, false)}, unsigned(hold, hold))
-			add("self-attested-unsigned-no-holder", hold, nil, []credFact{fact(hold, hold, false)}, unsigned(hold, hold))
-			add("foreign-unsigned-holder-set", hold, &hURI, []credFact{fact(iss, hold, false)}, unsigned(iss, hold))
-			add("foreign-unsigned-no-holder", hold, nil, []credFact{fact(iss, hold, false)}, unsigned(iss, hold))
-			add("valid+foreign-unsigned-holder-set", hold, &hURI, []credFact{fact(iss, hold, true), fact(other, hold, false)}, good, unsigned(other, hold))
-			add("valid+self-attested-holder-set", hold, &hURI, []credFact{fact(iss, hold, true), fact(hold, hold, false)}, good, unsigned(hold, hold))
 		}
 	}
+	r.Bound("vp_credential_kinds", len(kinds))
+	hURI, oURI := hold.did.URI(), other.did.URI()
 	created := time.Now().Add(-time.Minute)
 	vpExp := time.Now().Add(24 * time.Hour)
 	n := 0
-	for _, b := range cases {
+	run := func(seq []credKind, signer *party, holder *ssi.URI) {
+		names := make([]string, len(seq))
+		creds := make([]vc.VerifiableCredential, len(seq))
+		for i, k := range seq {
+			names[i], creds[i] = k.Name, k.cred
+		}
+		hs, hn := "", "holder-unset"
+		if holder != nil {
+			hs = holder.String()
+			hn = "holder-set"
+			if hs != signer.did.String() {
+				hn = "holder-other"
+			}
+		}
+		sn := "signed-by-subject"
+		if signer != hold {
+			sn = "signed-by-other"
+		}
+		class := strings.Join(names, "+") + "|" + hn + "|" + sn
 		for _, vf := range []string{"ldp_vp", "jwt_vp"} {
-			name := b.c.Name + "/" + vf
 			n++
-			if replay && rc.Doc != name {
+			name := class + "|" + vf
+			if replay {
+				if rc.Doc != name {
+					continue
+				}
+			} else if !r.Mine(n) {
 				continue
 			}
-			if !replay && !r.Mine(n) {
-				continue
+			if r.Expired() {
+				return
 			}
-			vp, err := e.present(b.signer, vf, created, &vpExp, b.holder, b.creds...)
+			var signerDID *did.DID = &signer.did
+			vp, err := e.present(signerDID, vf, created, &vpExp, holder, creds...)
 			r.Eval("vp-relations|" + name)
 			if err != nil {
 				r.Outcome("wallet refuses to build")
@@ -119,20 +191,55 @@ func vpRelations(e *env, r *ev.Run, iss, hold, other *party, replay bool, rc cas
 			}
 			raw, _ := json.Marshal(vp)
 			ok, msg := e.apiVerifyVP(raw, nil)
-			want := mayAcceptVP(b.c)
-			r.Outcome(fmt.Sprintf("vp relation may-accept=%v valid=%v", want, ok))
+			want := mayAcceptVP(signer.did.String(), hs, seq)
+			r.Outcome(fmt.Sprintf("vp(%d credentials) may-accept=%v valid=%v", len(seq), want, ok))
 			if ok && !want {
-				r.Violation("C01|vp-relations|"+b.c.Name[:len(b.c.Name)-7]+"|accepted", fmt.Sprintf("presentation %s is reported valid although the statement refuses it (signer %s, holder %q, credentials %+v)", name, b.c.Signer, b.c.Holder, b.c.Creds),
+				r.Violation("C01|vp-relations|accepted|"+class,
+					fmt.Sprintf("a presentation (%s) carrying, in this order, [%s] is reported valid although not every carried credential is acceptable on its own / the signer-holder-subject relation does not hold", hn+", "+sn+", "+vf, strings.Join(names, ", ")),
 					caseC01{Clause: "vp-relations", Doc: name, Input: string(raw)})
 			}
-			if !ok && want && (b.c.Name[:6] == "honest") {
-				r.Violation("C01|converse|vp|"+b.c.Name[:len(b.c.Name)-7], fmt.Sprintf("honest presentation %s built by the node's wallet does not verify: %s", name, msg), caseC01{Clause: "vp-relations", Doc: name, Input: string(raw)})
-			} else if !ok && want {
-				r.Observation("acceptable-presentation-refused|"+b.c.Name, "refused: "+firstWords(msg))
+			if !ok && want {
+				honest := true
+				for _, k := range seq {
+					honest = honest && k.HasProof
+				}
+				if honest {
+					r.Violation("C01|converse|vp|"+class, fmt.Sprintf("presentation %s built by the node's wallet from credentials of the node's issuer does not verify: %s", name, msg), caseC01{Clause: "vp-relations", Doc: name, Input: string(raw)})
+				} else {
+					r.Observation("acceptable-presentation-refused|"+class, "refused: "+firstWords(msg))
+				}
 			}
 		}
 	}
-	_ = credential.NutsOrganizationCredentialType
+	// one credential: every signer / holder relation
+	for _, k := range kinds {
+		for _, signer := range []*party{hold, other} {
+			for _, holder := range []*ssi.URI{nil, &hURI, &oURI} {
+				run([]credKind{k}, signer, holder)
+			}
+		}
+	}
+	// two credentials in every order (the second differs from the first in every possible way)
+	for _, a := range kinds {
+		for _, b := range kinds {
+			for _, holder := range []*ssi.URI{nil, &hURI} {
+				run([]credKind{a, b}, hold, holder)
+			}
+		}
+	}
+	// three credentials in every order (thorough)
+	if r.Thorough() || (replay && strings.Count(strings.Split(rc.Doc, "|")[0], "+") == 2) {
+		for _, a := range kinds {
+			for _, b := range kinds {
+				for _, c := range kinds {
+					for _, holder := range []*ssi.URI{nil, &hURI} {
+						run([]credKind{a, b, c}, hold, holder)
+					}
+				}
+			}
+		}
+	}
+	r.Bound("vp_relation_cases", n)
 }
 
 func firstWords(s string) string {
